@@ -11,7 +11,9 @@ import (
 // renameIdents replaces whole identifiers outside string literals and comments.
 func renameIdents(src string, m map[string]string) string {
 	var b strings.Builder
-	isStart := func(c byte) bool { return c == '_' || c == '$' || c == '.' || (c >= 'a' && c <= 'z') || (c >= 'A' && c <= 'Z') }
+	isStart := func(c byte) bool {
+		return c == '_' || c == '$' || c == '.' || (c >= 'a' && c <= 'z') || (c >= 'A' && c <= 'Z')
+	}
 	isCont := func(c byte) bool { return isStart(c) || (c >= '0' && c <= '9') }
 	i := 0
 	for i < len(src) {
